@@ -119,6 +119,17 @@ func PredID(rng *rand.Rand) string {
 	for {
 		s := fragString(rng, 1+rng.Intn(5), " \t\r\n ", idFragments)
 		if s != "" && utf8.ValidString(s) && !strings.ContainsAny(s, " \t\r\n\v\f\u0085 ") {
+			// now and then bytes that are no valid UTF-8 (a Latin-1 byte, a
+			// truncated sequence, an encoded surrogate): an ID is any string, and
+			// its printed form escapes them
+			if rng.Intn(8) == 0 {
+				bad := []string{"\xe9", "\xf0\x9f", "\xed\xa0\x80", "\xff"}[rng.Intn(4)]
+				k := rng.Intn(len(s) + 1)
+				for k < len(s) && !utf8.RuneStart(s[k]) {
+					k++
+				}
+				s = s[:k] + bad + s[k:]
+			}
 			return s
 		}
 	}
